@@ -92,6 +92,21 @@ func Harness_C20_sequences() {
 	zzMust(err)
 	var added [][]byte
 	adds := 0
+	// bulk: that many concrete hashes are in the set (flushed) before the symbolic
+	// operations start - long runs of stored entries that later insertions have to shift
+	if bulk := zzverif.Param("bulk", 0); bulk > 0 {
+		firsts := []byte{0x10, 0x80, 0xff}
+		for k := 0; k < bulk; k++ {
+			h := make([]byte, 16)
+			h[0] = firsts[k%3]
+			h[1] = byte(k / 3)
+			h[15] = byte(k)
+			added = append(added, h)
+			zzMust(s.Add(h))
+		}
+		zzMust(s.Flush())
+		adds += bulk
+	}
 	for i := 0; i < nOps; i++ {
 		switch zzverif.Choose("op", 4) {
 		case 0:
